@@ -184,6 +184,9 @@ class Interp:
     def lookup(self, name, act):
         if name in act.globals_decl:
             if name in act.module.vars:
+                hb = self.hooks.get("on_bind")
+                if hb:
+                    hb(act, act.module, name)
                 return act.module.vars[name]
             raise GirError(f"unbound global {name}")
         a = act
@@ -192,6 +195,9 @@ class Interp:
                 h = self.hooks.get("on_use")
                 if h:
                     h(act, a, name)
+                hb = self.hooks.get("on_bind")
+                if hb:
+                    hb(act, a, name)
                 return a.vars[name]
             a = a.parent
         if name in BUILTINS:
@@ -225,19 +231,25 @@ class Interp:
     def store(self, name, value, act, stmt=None):
         if name is None:
             return
+        owner = act
         if name in act.globals_decl:
             act.module.vars[name] = value
+            owner = act.module
         elif name in act.nonlocal_decl:
             a = act.parent
             while a is not None:
                 if name in a.vars:
                     a.vars[name] = value
+                    owner = a
                     break
                 a = a.parent
             else:
                 raise GirError(f"nonlocal {name} not found")
         else:
             act.vars[name] = value
+        hb = self.hooks.get("on_bind")
+        if hb and stmt is not None:
+            hb(act, owner, name)
         h = self.hooks.get("on_def")
         if h and stmt is not None:
             h(act, stmt, name, value)
